@@ -503,7 +503,7 @@ def _codec_table(chk: Check, big: bool):
     """LLSDFormat_MBT: laws on every value up to depth 2 + B3 table replay."""
     from hippolyzer.lib.base import llsd
     import hippolyzer.lib.base.serialization as se
-    invs = ["WellFormed", "BinRoundTrip", "BinDocRoundTrip", "BinFraming", "NotRoundTrip", "NotAltRoundTrip", "NotNoNewline", "SniffLaw"]
+    invs = ["WellFormed", "BinRoundTrip", "BinDocRoundTrip", "BinFraming", "NotRoundTrip", "NotAltRoundTrip", "NotNoNewline", "SniffLaw", "RLAgrees"]
 
     def mk(tiny, both):
         return "SPECIFICATION Spec\nCONSTANTS Big = %s Tiny = %s SniffTrimBoth = %s\n%s" % (
@@ -579,6 +579,120 @@ def _run_jobs(jobs):
     _JOBS = jobs
     res = common.parallel_map(_run_codec_job, list(range(len(jobs))))
     return [x for part in res for x in part]
+
+
+# ---- long string values: the notation output law on documents of thousands of bytes (run-length form)
+def to_rl(bs: bytes):
+    import itertools
+    return [[b, sum(1 for _ in g)] for b, g in itertools.groupby(bs)]
+
+
+def long_values(rng, thorough: bool):
+    """String values of 1022..70000 UTF-8 bytes with LF / CR / quote / backslash at the start, in the middle and at the
+    end, multi-byte characters straddling the 1024-byte boundary, bare and nested, plus long map keys and URIs.
+    Values are built from long runs of one filler byte so that their serialised form stays short in run-length form."""
+    from hippolyzer.lib.base import llsd
+    out = []
+    lengths = [1022, 1023, 1024, 1025, 4096, 70000] + ([2047, 2048, 65535, 65536, 200000] if thorough else [])
+    specials = ["\n", "\r", "'", '"', "\\", "\n\n", "\r\n"]
+
+    def sized(n, special, where, fill="a"):
+        k = len(special.encode("utf8"))
+        body = n - k
+        pos = {"start": 0, "mid": body // 2, "end": body}[where]
+        return fill * pos + special + fill * (body - pos)
+    for n in lengths:
+        for sp in specials:
+            for where in ("start", "mid", "end"):
+                out.append(("str %s %r" % (where, sp), sized(n, sp, where), True))
+    # multi-byte characters whose encoding straddles byte 1024, with a newline behind or in front of them
+    for ch in ("\u00e9", "\u2603", "\U0001f600"):
+        k = len(ch.encode("utf8"))
+        for off in range(1, k):
+            for tail in ("\n", "x\nx", ""):
+                out.append(("str straddle %r+%d %r" % (ch, off, tail), "a" * (1024 - off) + ch + tail + "b" * 8, True))
+                out.append(("str straddle-nl-first %r+%d" % (ch, off), "\n" + "a" * (1023 - off) + ch + "b" * 8, True))
+    # nested, and next to long keys / URIs (keys and URIs themselves hold no line feed: outside the clause)
+    for n in (1023, 1024, 4096):
+        s_ = sized(n, "\n", "mid")
+        out.append(("nested in array", [1, s_, None], False))
+        out.append(("nested in map", {"k": s_, "z": [s_]}, False))
+        out.append(("long key", {"k" * n: "a\nb", "q'\\" + "k" * n: s_}, False))
+        out.append(("long uri", [llsd.uri("http://x/" + "u" * n + "?q='\"\\"), s_], False))
+    if thorough:
+        for _ in range(60):
+            n = rng.choice([1000, 1023, 1024, 1030, 3000, 10000])
+            chars = [rng.choice("ab") * rng.randrange(1, n // 3)] * 1
+            s_ = ""
+            while len(s_.encode("utf8")) < n:
+                s_ += rng.choice(["a", "b"]) * rng.randrange(1, max(2, n // 4)) + rng.choice(specials + ["\u00e9", ""])
+            out.append(("str random runs", s_, True))
+    return out
+
+
+def long_event(what, val, top):
+    from hippolyzer.lib.base import llsd
+    n = len(val.encode("utf8")) if top else max(len(x.encode("utf8")) for x in _strings_of(val))
+    ev = {"ev": "Long", "what": what, "n": n, "st": "ok", "pst": "ok", "same": False, "outlen": 0, "out_rl": [], "top": bool(top),
+          "binhead": [], "binlen": 0}
+    st, out = impl_call(llsd.format_notation, val)
+    ev["st"] = st
+    if st == "ok":
+        out = bytes(out)
+        ev["outlen"], ev["out_rl"] = len(out), to_rl(out)
+        pst, r = impl_call(llsd.parse_notation, out)
+        ev["pst"] = pst
+        ev["same"] = pst == "ok" and proj(r) == proj(val)
+    else:
+        ev["exc"] = out
+    if top:
+        st, b = impl_call(llsd.format_binary, val, False)
+        if st == "ok":
+            ev["binhead"], ev["binlen"] = list(b[:5]), len(b)
+    return ev
+
+
+def _strings_of(x):
+    if isinstance(x, str):
+        yield x
+    elif isinstance(x, dict):
+        for k, v in x.items():
+            yield k
+            yield from _strings_of(v)
+    elif isinstance(x, (list, tuple)):
+        for v in x:
+            yield from _strings_of(v)
+
+
+def _long(chk: Check, thorough: bool):
+    vals = long_values(chk.rng, thorough)
+    evs = [long_event(w, v, t) for w, v, t in vals]
+    too_long = [e for e in evs if len(e["out_rl"]) > 400]
+    if too_long:
+        raise common.MachineryError("run-length form of a long value is itself too long: %s" % too_long[0]["what"])
+    traces = [[e] for e in evs]
+    acc, rej, results = common.validate_traces("LLSDFormat_Trace", CODEC_CFG, traces, chk.scratch, shards=4, tag="llong")
+    fails = {}
+    for r in results:
+        chk.add_tlc(r, "LLSDFormat_Trace long values")
+        for rec in r.printed():
+            if isinstance(rec, dict) and "fail" in rec:
+                fails.setdefault(rec["tid"], set()).add(rec["fail"])
+    chk.cov["traces_validated_against_impl"] += len(traces)
+    chk.cov["long_values"] = len(traces)
+    chk.cov["long_values_with_newline"] = sum(1 for _, v, _ in vals if any("\n" in x for x in _strings_of(v)))
+    chk.count(len(traces))
+    for ti, j, ev in rej:
+        chk.violation("long value trace rejected by LLSDFormat_Trace", {"kind": "llsd-long", "class": "trace-rejected"}, {"what": ev.get("what")})
+    for ti, clauses in sorted(fails.items()):
+        e = evs[ti]
+        chk.nontrivial(("long", ti))
+        for c in sorted(clauses):
+            chk.violation("LLSD notation, long string value: %s" % c, {"kind": "llsd-long", "clause": c, "bytes": e["n"] if e["n"] in (1022, 1023, 1024, 1025, 4096, 70000) else "other"},
+                          {"what": e["what"], "bytes": e["n"], "outlen": e["outlen"], "out_rl": e["out_rl"][:12], "exc": e.get("exc")})
+    for i in range(len(evs)):
+        chk.nontrivial(("long", i))
+    chk.sample({"binding": "B2 long value (output law on the run-length form)", "event": {k: (v[:8] if isinstance(v, list) else v) for k, v in evs[len(evs) // 3].items()}})
 
 
 def _codec(chk: Check, big: bool, n_trees: int, depth: int):
@@ -1165,8 +1279,8 @@ def _carrier_machine(chk: Check, max_hist: int):
     def cfg(memo, with_invs=True):
         return ("SPECIFICATION MSpec\nCONSTANTS Dom <- MCDom\n HistTypes <- MCHistTypes\n Memo = \"%s\" MaxHist = %d\n" % (memo, max_hist)
                 + ("".join("INVARIANT %s\n" % i for i in invs) if with_invs else ""))
-    common.model_check(chk, "LLSDMessage_MBT", cfg("none"), "LLSDMessage instance machine, no memory")
-    common.model_check(chk, "LLSDMessage_MBT", cfg("template"), "LLSDMessage instance machine, per-type memo from the template")
+    if chk.tier != "quick":
+        common.model_check(chk, "LLSDMessage_MBT", cfg("template"), "LLSDMessage instance machine, per-type memo from the template")
     # the law bites: an instance that remembers what the FIRST body of a type contained is refuted by TLC
     cfgp = os.path.join(chk.scratch, "lm-firstbody.cfg")
     with open(cfgp, "w") as f:
@@ -1175,8 +1289,14 @@ def _carrier_machine(chk: Check, max_hist: int):
     chk.add_tlc(res, "LLSDMessage instance machine, memo from first body (must be refuted)")
     if not ({"HistoryIndependent", "CarrierIsLLSD"} & set(res.violated)):
         raise common.MachineryError("HistoryIndependent does not refute a first-body memo: %r" % res.violated)
-    recs = common.export_records(chk, "LLSDMessage_MBT", cfg("none", False), "LLSDMessage_MBT")
-    g = common.Graph(recs)
+    # one run: the invariants on the memory-less instance machine AND the export of its edges (one worker)
+    with open(cfgp, "w") as f:
+        f.write(cfg("none"))
+    res = common.run_tlc(os.path.join(common.SPECS, "LLSDMessage_MBT.tla"), cfgp, workers=1, scratch=chk.scratch, heap="8g")
+    chk.require_model_ok(res, "LLSDMessage instance machine, no memory (+ export)")
+    if not res.ok:
+        return
+    g = common.Graph(res.printed())
     tmpls = templates()
     targets = {ty: _find_var(tmpls, ty) for ty in sorted(set(TYNAMES.values()))}
     _B1 = (g, targets)
@@ -1362,10 +1482,12 @@ def _run(chk: Check):
         _carrier_machine(chk, 2)
         _histories(chk, False)
         _messages(chk, 3)
+        _long(chk, False)
         _codec(chk, False, 400, 3)
     else:
         _carrier_machine(chk, 3)
         _histories(chk, True)
         _messages(chk, 18)
+        _long(chk, True)
         _codec(chk, True, 10000, 4)
     chk.cov["exhaustive"] = True
